@@ -170,11 +170,11 @@ func (rl *Shell) run(main bool, bind inputrc.Bind, command func()) (bool, string
 		return false, "", nil
 	}
 
-	// If the resolved bind is a macro itself, reinject its
-	// bound sequence back to the key stack.
+	// If the resolved bind is a macro itself, reinject its bound
+	// sequence back to the key stack, in place of the macro keys.
 	if bind.Macro {
 		macro := inputrc.Unescape(bind.Action)
-		rl.Keys.Feed(false, []rune(macro)...)
+		rl.Keys.Feed(true, []rune(macro)...)
 	}
 
 	// The completion system might have control of the
